@@ -443,7 +443,13 @@ func Discharge(obls []*Obligation, dir string, timeout int, thorough bool, jobs 
 				}
 			} else {
 				// z3 5.1.0 (two strategies) and z3 4.8.12 race; then cvc5
-				raced := raceSolvers([]string{"z3-new", "z3-new/as2", "z3"}, f, timeout)
+				strategies := []string{"z3-new", "z3-new/as2", "z3"}
+				if o.Raw != "" {
+					// string-track queries: the legacy-simplex option is not used (it produced a
+					// spurious sat on a str.in_re query); a sat answer must replay on the real code anyway
+					strategies = []string{"z3-new", "z3"}
+				}
+				raced := raceSolvers(strategies, f, timeout)
 				for _, sr := range raced {
 					r.Attempts = append(r.Attempts, sr)
 					if sr.Result == "unsat" {
